@@ -152,13 +152,24 @@ class C20(HistoryCheck):
     # -- sequential part -----------------------------------------------------------------
     def next_op(self, ctx, world, gen):
         op = gen.gen()
+        if op["op"] == "deepcopy" and ctx.src.chance(0.6):
+            op["wrap"] = ctx.src.randint(1, 3)  # deepcopy of an instance nested in containers to depth 3
         if op["op"] in ("new", "call", "deepcopy", "del", "set") and ctx.src.chance(self.P_PROBE[ctx.tier]):
             op["probe"] = {"kind": ctx.src.choice(["interrupt", "interrupt", "memory"]),
                            "lines": "all" if ctx.tier == "thorough" else "strat"}
         return op
 
     def _exec(self, ctx, world, op, idx, plan, count_lines=False, commit=False):
-        prep = world.prepare(op)
+        try:
+            prep = world.prepare(op)
+        except SkipOp:
+            raise
+        except Exception as e:
+            # building the (conforming) argument objects already failed inside the library's copy machinery
+            ctx.violate({"invariant": "copy_succeeds", "mode": "seq", "op": "build_arguments", "exc": type(e).__name__},
+                        {"op": op, "msg": strip_addr(str(e))[:200]}, step=idx)
+            repair_globals(self.base)
+            raise SkipOp("argument construction failed")
         out = world.run(prep, plan, count_lines=count_lines)
         ctx.evaluations += 1
         fk = "none" if plan is None else plan[0]
@@ -168,6 +179,10 @@ class C20(HistoryCheck):
             ctx.bump("fired_" + out.fired[0])
         label = op["op"] if op["op"] != "call" else "call:" + op["m"].split("_")[0]
         ctx.cell("seq", label, fk, site if out.fired else out.status)
+        if op["op"] == "deepcopy" and out.status == "exc":
+            # a copy of (containers of) spec instances must succeed, whatever module-bearing values they hold
+            ctx.violate({"invariant": "copy_succeeds", "mode": "seq", "op": label, "exc": out.exc_type(),
+                         "wrap": op.get("wrap", 0)}, {"op": op, "msg": strip_addr(str(out.exc))[:200]}, step=idx)
         added, removed, changed = table_diff(self.base)
         when = "at_quiescent_point"
         if not (added or removed or changed) and out.raised:
@@ -177,9 +192,12 @@ class C20(HistoryCheck):
 
             try:
                 protect_via_deepcopy([1])
-            except Exception as e:  # pragma: no cover
+            except BaseException as e:  # noqa: BLE001
+                if type(e).__name__ in ("KeyboardInterrupt", "SystemExit"):
+                    raise
                 ctx.violate({"invariant": "copy_after_abort_succeeds", "mode": "seq", "exc": type(e).__name__},
                             {"op": op, "plan": plan}, step=idx)
+                repair_globals(self.base)
             added, removed, changed = table_diff(self.base)
             when = "after_next_copy"
         if added or removed or changed:
@@ -288,9 +306,15 @@ class C20(HistoryCheck):
             return
         ref = [(t.result, type(t.exc).__name__ if t.exc else None) for t in probe.threads]
         if any(e for _, e in ref):
+            # even without any pre-emption every copy must succeed
             ctx.log("reference_raised", [e for _, e in ref])
             ctx.case["switches"] = []
-            ctx.bump("reference_raised")
+            ctx.evaluations += 1
+            for i, t in enumerate(probe.threads):
+                if t.exc is not None:
+                    ctx.violate({"invariant": "copy_succeeds_in_every_thread", "mode": "threads", "exc": type(t.exc).__name__,
+                                 "schedule": "sequential"},
+                                {"thread": i, "msg": strip_addr(str(t.exc))[:300], "plan": tc["plans"][i]})
             repair_globals(self.base)
             return
         repair_globals(self.base)
